@@ -736,7 +736,9 @@ impl XmlAttribute {
     pub fn empty(name: &str, context: &Context) -> error::Result<Rc<XmlItem>> {
         let xml = format!("{}=''", name);
         let (rest, tree) = xml_parser::attribute(xml.as_str())?;
-        if rest.is_empty() {
+        // the argument must be the name itself (`a ` parses, as white space is allowed before `=`).
+        let whole_name = matches!(xml_nom::qname(name), Ok(("", _)));
+        if rest.is_empty() && whole_name {
             XmlAttribute::node(&tree, None, context)
         } else {
             Err(error::Error::InvalidData(name.to_string()))
@@ -2485,7 +2487,9 @@ impl XmlElement {
     pub fn empty(name: &str, context: &Context) -> error::Result<Rc<XmlItem>> {
         let xml = format!("<{} />", name);
         let (rest, tree) = xml_parser::element(xml.as_str())?;
-        if rest.is_empty() {
+        // the argument must be the name itself, not text that merely parses to a tag (trailing white space).
+        let whole_name = matches!(xml_nom::qname(name), Ok(("", _)));
+        if rest.is_empty() && whole_name {
             XmlElement::node(&tree, None, context)
         } else {
             Err(error::Error::InvalidData(name.to_string()))
@@ -3542,7 +3546,8 @@ impl XmlProcessingInstruction {
     pub fn empty(target: &str, context: &Context) -> error::Result<Rc<XmlItem>> {
         let xml = format!("<?{}?>", target);
         let (rest, tree) = xml_parser::pi(xml.as_str())?;
-        if rest.is_empty() {
+        // the argument must be the target itself, not text that merely parses to one (trailing white space, data).
+        if rest.is_empty() && tree.target == target {
             Ok(XmlProcessingInstruction::node(&tree, None, context))
         } else {
             Err(error::Error::InvalidData(target.to_string()))
